@@ -27,8 +27,9 @@ CONFIGS = {
     "C02": {
         "level": "exploration",
         "rule": "same worlds as C01; at exhaustion the multiset of emitted (base_prob, pre-terminal) is compared with the reference "
-                "language; after every pop (languages <= 600) heap invariants: nothing in the heap was emitted, no duplicate, "
-                "heap <= last popped, closure (every un-emitted derivation is a successor of a heap entry); non-trivial = some "
+                "language; after every pop (languages <= 600, no duplicate base lines) queue-state invariants: no queued entry above "
+                "the last pop, closure (every un-emitted derivation is a successor of a queued entry); duplicates / already-emitted "
+                "entries in the queue are probes only; non-trivial = some "
                 "node has >= 2 parents of exactly equal probability or a structure repeats a variable type",
     },
     "C04": {
